@@ -108,16 +108,20 @@ Supers(c, e) ==
 RootExpr(c) ==
   IF c.sx = "none" \/ c.inh \in {"none", "single", "chain", "redecl", "tworoots", "nestedmi"} THEN NoTree
   ELSE Op(c.sx, <<Leaf("e2"), Leaf("e3")>>)
-Names(c) == IF c.inh = "multi" THEN <<"e1", "e2", "e3", "e4">>
+Names0(c) == IF c.inh = "multi" THEN <<"e1", "e2", "e3", "e4">>
             ELSE IF c.inh = "tworoots" THEN <<"e1", "e2", "r2", "e3", "e4", "h">>
             ELSE IF c.inh = "nestedmi" THEN <<"e1", "e2", "r2", "r3", "e3", "e4", "e5", "h">>
             ELSE IF c.inh = "single" THEN <<"e1">> ELSE <<"e1", "e2", "e3">>
+(* with rules: also an entity without supertype and without explicit attribute whose only attribute is an INVERSE one *)
+(* (tgt0), and the entity it is used by (usr0)                                                                      *)
+Names(c) == Names0(c) \o (IF c.rules THEN <<"tgt0", "usr0">> ELSE <<>>)
 WithRules(c, e) ==
   IF ~c.rules THEN e
   ELSE IF e.name = "e1" THEN [e EXCEPT !.derive = <<[name |-> "d1", ty |-> T("INTEGER"), expr |-> "a1 + f1(a1)"]>>,
                                        !.inverse = <<[name |-> "inv1", ent |-> "e2", attr |-> "b1", setof |-> TRUE]>>,
                                        !.uniq = <<[label |-> "ur1", attrs |-> <<"a1">>]>>,
                                        !.where = <<[label |-> "wr1", expr |-> "a1 > 0"]>>]
+  ELSE IF e.name = "tgt0" THEN [e EXCEPT !.inverse = <<[name |-> "users", ent |-> "usr0", attr |-> "t", setof |-> TRUE]>>]
   ELSE e
 (* shape "redecl": the chain e1 <- e2 <- e3 in which e3 redeclares the reference attribute it inherits from e2 with a  *)
 (* narrower entity type (SELF\e2.b1 : e2) and declares an attribute of its own after it.  In an exchange file the    *)
@@ -135,6 +139,8 @@ Valid0(c) ==
                    ELSE IF n = "r2" THEN <<A("q1", T("INTEGER"), FALSE)>>
                    ELSE IF n = "r3" THEN <<A("p1", T("STRING"), TRUE)>>
                    ELSE IF n = "e5" THEN <<A("z1", T("INTEGER"), TRUE)>>
+                   ELSE IF n = "tgt0" THEN <<>>
+                   ELSE IF n = "usr0" THEN <<A("t", T("tgt0"), FALSE)>>
                    ELSE IF n = "h" THEN <<A("h1", T("e1"), FALSE), A("h2", T("r2"), FALSE), A("h3", Agg("LIST", 0, -1, "e1"), FALSE),
                                           A("h4", Agg("LIST", 0, -1, "r2"), TRUE)>>
                    ELSE <<A("g1", T("REAL"), TRUE)>>)))],
